@@ -17,11 +17,22 @@ type Key struct {
 
 // Table is the reference table: rows are a plain slice (a multiset); keyed tables keep the
 // "no two rows agree on a unique key" discipline by construction of Apply.
+// Known names the known engine defects that are still present on the tree under test (each monitor
+// probes them with its pinned witnesses before generating anything). While a defect is present its
+// input class is kept out of the generated domain (known finding via=domain); once the pinned witness
+// goes quiet the class is generated and judged like everything else.
+type Known struct {
+	IntAssignClamp      bool // UPDATE/ODKU assignment of an out-of-range integer is clamped silently
+	NeFractionalDecimal bool // col <> fractional literal on an indexed DECIMAL column selects equal rows
+	UniqueCheckDeadRow  bool // unique check consults a row version deleted earlier in the same statement
+}
+
 type Table struct {
 	Name string
 	Cols []Column
 	Keys []Key
 	Rows []Row
+	Excl Known
 
 	// tomb holds the old versions of the rows deleted or updated so far by the statement being
 	// applied; shadowed records that a conflict check met a tomb row with the same unique-key value
@@ -31,7 +42,7 @@ type Table struct {
 }
 
 func (t *Table) Clone() *Table {
-	c := &Table{Name: t.Name, Cols: t.Cols, Keys: t.Keys}
+	c := &Table{Name: t.Name, Cols: t.Cols, Keys: t.Keys, Excl: t.Excl}
 	c.Rows = make([]Row, len(t.Rows))
 	for i, r := range t.Rows {
 		c.Rows[i] = r.Copy()
@@ -901,6 +912,7 @@ func (t *Table) applyInsert(st *Stmt, kc KeyCmp, out *Outcome, tc *touched) {
 				old := t.Rows[conf[0]]
 				nw := old.Copy()
 				done := map[int]bool{}
+				errc := map[string]bool{}
 				for _, a := range st.ODKU {
 					if e := a.E; (e.Op == ECol || e.Op == EColPlus || e.Op == EValuesPlusCol) && e.Col != a.Col && done[e.Col] {
 						out.Unspecified = "assignment reads a column assigned earlier in the same statement"
@@ -913,15 +925,22 @@ func (t *Table) applyInsert(st *Stmt, kc KeyCmp, out *Outcome, tc *touched) {
 					}
 					v, e := t.Cols[a.Col].Store(ev)
 					if e != "" {
-						if e == ErrRange && t.Cols[a.Col].Type.Kind == KInt {
+						if e == ErrRange && t.Cols[a.Col].Type.Kind == KInt && t.Excl.IntAssignClamp {
 							out.Unspecified = "assignment of an out-of-range integer (excluded input class, see findings)"
 							return
 						}
-						out.Err = e
-						return
+						errc[e] = true
 					}
 					nw[a.Col] = v
 					done[a.Col] = true
+				}
+				if len(errc) > 1 {
+					out.Unspecified = "more than one unstorable value in a row (error precedence not fixed)"
+					return
+				}
+				for e := range errc {
+					out.Err = e
+					return
 				}
 				if nw.Same(old) {
 					t.tomb = append(t.tomb, old) // the engine deletes and re-adds the row even when nothing changes
@@ -1024,7 +1043,7 @@ func (t *Table) applyUpdate(st *Stmt, kc KeyCmp, out *Outcome, tc *touched) {
 			}
 			v, e := t.Cols[a.Col].Store(ev)
 			if e != "" {
-				if e == ErrRange && t.Cols[a.Col].Type.Kind == KInt {
+				if e == ErrRange && t.Cols[a.Col].Type.Kind == KInt && t.Excl.IntAssignClamp {
 					out.Unspecified = "assignment of an out-of-range integer (excluded input class, see findings)"
 					return
 				}
